@@ -1,6 +1,7 @@
 import Genshi.Wire
 import Genshi.WireCore
 import Genshi.Model.TmplImpl
+import Genshi.Model.TmplExtract
 namespace Driver.C04
 open Genshi Genshi.Tmpl Genshi.Sexp
 
@@ -156,6 +157,7 @@ def handle : List Sexp → Option Sexp
       | "doc" => pure (outRes (docRender fuel nodes data))
       | "impl" => pure (outRes (implRender fuel nodes data))
       | "compile" => pure (.list ((compileNodes nodes).map cevS))
+      | "compileflat" => pure (.list ((compileFlat nodes).map cevS))
       | _ => none
   | _ => none
 
